@@ -58,8 +58,20 @@ func (g *Gen) keptSpanProgram() *GProgram {
 	}
 	dst := &GDest{Kind: DstInorder}
 	nclauses := 1 + g.r.Intn(3)
+	// partial sums of what the sources hold: a kept amount that ends exactly on a sender boundary
+	var bounds []*big.Int
+	run := new(big.Int)
+	for _, a := range names {
+		if b := g.bal[a][asset]; b != nil && b.Sign() > 0 {
+			run = new(big.Int).Add(run, b)
+			bounds = append(bounds, run)
+		}
+	}
 	for i := 0; i < nclauses; i++ {
 		capv := g.r.BigBelow(new(big.Int).Add(n, bi(3)))
+		if len(bounds) > 0 && g.r.Chance(1, 3) {
+			capv = new(big.Int).Set(bounds[g.r.Intn(len(bounds))])
+		}
 		var to *GKod
 		if g.r.Chance(1, 2) {
 			to = &GKod{Kept: true}
@@ -324,6 +336,12 @@ func (g *Gen) twoAssetsProgram() *GProgram {
 	}
 	g.bal["a"] = map[string]*big.Int{x: bi(int64(5 + g.r.Intn(30))), y: bi(int64(5 + g.r.Intn(30)))}
 	g.bal["b"] = map[string]*big.Int{x: bi(int64(g.r.Intn(10))), y: bi(int64(g.r.Intn(10)))}
+	switch g.r.Intn(4) {
+	case 0:
+		delete(g.bal["a"], x) // the store has nothing to say about the first asset
+	case 1:
+		g.bal["a"][x] = bi(0)
+	}
 	if g.r.Chance(3, 4) {
 		g.prog.Vars = append(g.prog.Vars, &GVarDecl{Type: "monetary", Name: "seen",
 			Origin: &GFnCall{Name: "balance", Args: []*GExpr{acct("a"), {Kind: XAsset, S: x}}}})
@@ -536,3 +554,32 @@ func (g *Gen) effectsCarryProgram() *GProgram {
 	g.prog.Stmts = append(g.prog.Stmts, &GStmt{Kind: StSend, Sent: sent, Src: src, Dst: dstAcct("d")})
 	return g.prog
 }
+
+// kitchenSink: a valid script with a variable of every type in every syntactic position a variable
+// can take (sent values incl. send-all, sources, caps, overdraft limits, allotment portions in
+// sources and destinations, kept clauses, save, calls, both operands of an infix, origins). Run by
+// the analysis properties as a fixed corpus entry: hover, definition and "used" bookkeeping must
+// work for each of these positions.
+const kitchenSink = `vars {
+  asset $ast
+  account $acc
+  monetary $mon
+  number $num
+  portion $por
+  string $str
+  monetary $bal = balance($acc, $ast)
+  account $m = meta($acc, $str)
+}
+send [$ast *] (
+  source = { $acc max $mon from $acc allowing overdraft up to $mon }
+  destination = { max $mon to $acc remaining kept }
+)
+send $mon + [$ast $num] (
+  source = { $por from $acc remaining from { $acc @b allowing unbounded overdraft } }
+  destination = { $por to $acc remaining to { max [$ast $num] kept remaining to $m } }
+)
+save $mon from $acc
+save [$ast *] from $m
+set_account_meta($acc, $str, $num - $num)
+set_tx_meta($str, $bal)
+`
